@@ -27,15 +27,18 @@ pub enum ErrKind {
     NotConnected,
     InvalidData,
     PermissionDenied,
+    /// never injected as an error: the marker for "the blocking sink accepted 0 bytes", which `write_all` must turn into
+    /// `ErrorKind::WriteZero`
+    WriteZero,
 }
 
 /// number of error kinds (size of the per-kind counters)
-pub const NK: usize = 10;
+pub const NK: usize = 11;
 
 /// Every kind a source / sink may fail with.  `UnexpectedEof` and `WriteZero` are deliberately absent: the library
 /// produces those itself, and an environment that returned them as transient errors would make the truncation /
 /// write-zero clauses ambiguous.
-pub const ERR_KINDS: [ErrKind; NK] = [
+pub const ERR_KINDS: [ErrKind; 10] = [
     ErrKind::Interrupted,
     ErrKind::WouldBlock,
     ErrKind::TimedOut,
@@ -61,6 +64,7 @@ impl ErrKind {
             ErrKind::NotConnected => io::ErrorKind::NotConnected,
             ErrKind::InvalidData => io::ErrorKind::InvalidData,
             ErrKind::PermissionDenied => io::ErrorKind::PermissionDenied,
+            ErrKind::WriteZero => io::ErrorKind::WriteZero,
         }
     }
     pub fn from_io(k: io::ErrorKind) -> Option<ErrKind> {
@@ -81,6 +85,7 @@ impl ErrKind {
             ErrKind::NotConnected => "notconnected",
             ErrKind::InvalidData => "invaliddata",
             ErrKind::PermissionDenied => "permissiondenied",
+            ErrKind::WriteZero => "writezero",
         }
     }
     pub fn parse(s: &str) -> Option<ErrKind> {
@@ -642,6 +647,19 @@ impl SinkCore {
                     obs.nontrivial = true
                 }
                 Some(Err(io::Error::new(k.io(), "minisim: injected")))
+            }
+            Step::Zero if !is_async && self.allow_fatal => {
+                // a blocking device that takes nothing although bytes were offered: `write_all` reports WriteZero
+                obs.event(ev::ZERO, self.data.len() as u64);
+                obs.fault(fk::write_zero);
+                obs.fault(fk::fatal_err_write);
+                self.zero_served += 1;
+                self.fatal_served = Some(ErrKind::WriteZero);
+                if phase.inside() {
+                    obs.probe(pb::write_zero_mid_frame);
+                    obs.nontrivial = true
+                }
+                Some(Ok(0))
             }
             Step::Zero if is_async => {
                 obs.event(ev::ZERO, self.data.len() as u64);
